@@ -6,6 +6,11 @@
   `next s` lists the subscriptions of the topic that stage `s` publishes to (one entry: a chain link; two entries:
   a fan-out topic with two subscribed handlers; two stages naming the same successor: fan-in).  Stage `n` is the
   sink: the harness's own subscription of the final topic.  Stage 0 is subscribed to the source topic.
+  A handler that returns w output messages per input owes w copies to every subscription of its output topic: in
+  `next s` that subscription is listed w times (`[[1, 1], [2]]`: stage 0 emits two outputs).  The model follows SOURCE
+  lineages – all copies descending from one source message carry its lineage; which derived message a copy is, is
+  tracked by the monitor (WmModel/PipelineMon.lean), the model accounts for the NUMBER of copies owed, so that a
+  refused output that is never made up for leaves a token behind.
 
   State = the list of *tokens* (lineage, stage, phase).  A token stands for "the subscription of stage `stage` owes
   the processing of one copy of the message with this lineage":
